@@ -15,7 +15,8 @@
    UNBOUNDED path is at an instruction boundary and its grouping stack is two words below max (8*TrackCount) 32)
    -- decidable per instance by CompileLimit.mon_steps (compile_exec_total_checked); TrackCount as counted on
    the code (track_count (codes p) <= trackcount p: what syntax.Write stores); and, for the scan, enough
-   reference fuel at every start position. *)
+   reference fuel at every start position.
+   The path_ok hypothesis is discharged in Proofs/CompileSafe.v (compile_exec_total, compile_find_dichotomy). *)
 From Verif Require Import Base.Prelude Model.Tree Model.Spec Model.VM Model.Writer Gen.RunnerGen
   Proofs.SpecBoundsProofs Proofs.VMLimitProofs Proofs.VMLimitSimProofs Proofs.VMCapacityProofs
   Proofs.VMU Proofs.VMUOps2 Proofs.VMUBridge Proofs.CompileBase Proofs.CompileDefs Proofs.CompileProofs
